@@ -98,6 +98,7 @@ type Sim struct {
 	Deadlock  bool     // main never finished and nothing can wake
 	Stuck     []string // tasks alive when a deadlock / exhaustion was declared
 	LazyKeys  int      // pointer map keys first seen while sorting (nondeterminism risk)
+	LazyWhere map[string]int
 	Events    []string
 	Strategy  int
 	SpawnCnt  map[string]int
